@@ -134,6 +134,57 @@ def run(chk):
     if len(chk.events) > first:
         chk.judge_with_header({"op": "globals", "gm": gm4}, chk.events[first:])
 
+    # ---- declared permutational / bra-ket symmetry of every intermediate ---
+    # Whenever exchanging two index names of one space maps the tensor symbol
+    # onto +-itself (that is what the symbol's class and bra_ket_sym declare),
+    # the definition must do the same in value.
+    first = len(chk.events)
+    for name, it in avail.items():
+        default = list(it.default_idx)
+        if len(default) > 6:
+            continue                   # t4_2: covered by the slices above
+        base_t = it.tensor(default, return_sympy=True)
+        pairs = [(x, y) for x in range(len(default))
+                 for y in range(x + 1, len(default))
+                 if default[x][0] in "ijklmno" and default[y][0] in "ijklmno"
+                 or default[x][0] in "abcdefgh" and default[y][0] in "abcdefgh"]
+        if quick:
+            pairs = r.sample(pairs, min(2, len(pairs)))
+        for (x, y) in pairs:
+            swapped = list(default)
+            swapped[x], swapped[y] = swapped[y], swapped[x]
+            t2 = it.tensor(swapped, return_sympy=True)
+            if t2 == base_t:
+                sign = 1
+            elif t2 == -base_t:
+                sign = -1
+            else:
+                continue               # this exchange is not a declared symmetry
+            for full in ((False,) if quick or it.order >= 3 else (False, True)):
+                what = (f"declared symmetry of {name}: expand_itmd("
+                        f"'{''.join(swapped)}') = {sign:+d} * expand_itmd("
+                        f"'{''.join(default)}'), fully_expand={full}")
+                a, e1 = guarded(it.expand_itmd, default, False, full)
+                b, e2 = guarded(it.expand_itmd, swapped, False, full)
+                chk.count("expansions", 2)
+                if e1 or e2:
+                    e = e1 or e2
+                    chk.report_direct(f"itmd:{name}:exception", f"{what} raised"
+                                      f" {e['type']}: {e['msg']}", e)
+                    continue
+                try:
+                    ev, ctx = build.valpres(
+                        Expr(sign * a.sympy, real=True).expand(),
+                        Expr(b.sympy, real=True).expand(), op="valpres",
+                        key=f"itmd:{name}:declared-symmetry", what=what,
+                        tgt_syms=get_symbols(default))
+                except adapter.Unsupported as u:
+                    chk.machinery_errors.append(f"{what}: {u}")
+                    continue
+                ev["text"]["post"] = ev["text"]["post"][:300]
+                chk.add_event(ev)
+    chk.judge(events=chk.events[first:], chunk=60)
+
     # ---- RE residuals: definition vs. derived residual (generic model) -----
     first = len(chk.events)
     re = GroundState(Operators("re"))
@@ -168,5 +219,8 @@ def run(chk):
              "evaluates the definition for every index assignment and compares "
              "with the coefficient of the explicit perturbed wavefunction / "
              "the density block from spec/Rspt.tla (second-order quadruples "
-             "on 4 occupied + 4 virtual orbitals); RE residual definitions "
+             "on 4 occupied + 4 virtual orbitals); every exchange of two index "
+             "names under which the tensor symbol of an intermediate is "
+             "declared (anti)symmetric maps the definition onto +-itself in "
+             "value; RE residual definitions "
              "are compared in value with the derived residuals")
